@@ -8,7 +8,7 @@ Floyd-Warshall over the permitted arcs + a backtracking search over the parallel
 choice of traversable edges that sums to the optimum and whose oriented, chained polylines equal
 the returned coordinates exactly.
 """
-from mc import graphs
+from mc import graphs, pqueue
 from mc.env import guard
 from mc.graphs import INF, Graph, Oracle, close
 
@@ -23,6 +23,9 @@ RULE = ("cases = transitions (state, query) of the per-graph BFS; distinct becau
         "non-trivial = the target is reachable and the route has >= 2 edges or traverses an edge against its stored "
         "direction")
 ASSUMPTIONS = ["Dijkstra routing mode only",
+               "the queue of the search (tracklib.core.utils.priority_dict) is explored on its own in the insert / decrease-key "
+               "regime of a Dijkstra search (mc/pqueue.py, see C06): the order in which nodes are settled decides the "
+               "predecessors a route is rebuilt from",
                "weights {0, a, b} per variant; 4-vertex edge polylines whose interior vertices are unique to the edge "
                "(asserted when mc/graphs.py is imported); node positions (0,0) (4,0) (2,3) (5,4) moved by the variant's "
                "dyadic offset and scale, so coordinates are compared exactly",
@@ -49,7 +52,8 @@ _COMMON = {
     "history_depth_2": "a query was executed in a state left behind by a different query",
     "state_space_closed": "per-graph BFS reached a fixpoint (no new state at depth 2)",
 }
-OBLIGATIONS = {"all": _COMMON, "quick": {},
+OBLIGATIONS = {"all": dict(_COMMON, pq_priority_decreased=pqueue.OBLIGATIONS["pq_priority_decreased"],
+                          pq_tie_at_minimum=pqueue.OBLIGATIONS["pq_tie_at_minimum"]), "quick": {},
                "thorough": {"three_edge_path": "a valid returned route with 3 edges (4-node graphs)"}}
 
 
@@ -101,7 +105,8 @@ def plan(tier, variant):
         for lo in range(0, n_first, s["chunk"]):
             shards.append({"nn": s["nn"], "ne": s["ne"], "W": s["W"], "pairs": s["pairs"], "need": s["need"],
                            "lo": lo, "hi": min(n_first, lo + s["chunk"]), "variant": variant, "depth": s["depth"]})
-    return shards
+    # the queue that decides which node is settled next (and hence the predecessors a route is rebuilt from)
+    return [q for q in pqueue.shards(tier, variant) if q["regime"] == "dijkstra"] + shards
 
 
 # ---------------------------------------------------------------------------
@@ -303,6 +308,8 @@ def explore_graph(variant, nn, edges, W, depth, ctx):
 
 
 def run_shard(shard, ctx):
+    if shard.get("kind") == "pq":
+        return pqueue.run_shard(shard, ctx)
     variant, nn, ne = shard["variant"], shard["nn"], shard["ne"]
     W = shard["W"]
     al = graphs.edge_alphabet(variant, nn, W, shard["pairs"])
@@ -320,6 +327,8 @@ def run_shard(shard, ctx):
 
 # ---------------------------------------------------------------------------
 def replay(case, ctx):
+    if case.get("kind") == "pq":
+        return pqueue.replay(case, ctx)
     variant, nn = case["variant"], case["nn"]
     edges = tuple(tuple(e) for e in case["edges"])
     hist = tuple(tuple(h) for h in case["hist"])
